@@ -18,6 +18,12 @@ import (
 )
 
 func main() {
+	if len(os.Args) >= 4 && os.Args[2] == "--freshdefault" {
+		// child of C17: the very first thing this process does with dict.Default is decided there
+		v, _ := strconv.Atoi(os.Args[3])
+		checks.FreshDefaultChild(v)
+		return
+	}
 	if len(os.Args) < 2 {
 		fmt.Fprintln(os.Stderr, "usage: verifa <ID> [--tier quick|thorough] [--replay path]")
 		os.Exit(2)
